@@ -131,7 +131,14 @@ pub fn check_program(acc: &mut ShardResult, name: &str, s: &Program, raw: Option
     let parsed = match guarded(|| ProgramParser::new().parse(&text).map_err(|e| format!("{e:?}"))) {
         Ok(Ok(p)) => p,
         Ok(Err(e)) => {
-            fail(acc, "text:parse-failed", format!("printed program does not parse back: {}", e.chars().take(300).collect::<String>()));
+            // Show the printed text around the reported location.
+            let at: Option<usize> = e.split("location: ").nth(1).and_then(|r| r.split(|c: char| !c.is_ascii_digit()).next()).and_then(|n| n.parse().ok());
+            let around = at.map(|a| {
+                let lo = (0..=a.saturating_sub(80).min(text.len())).rev().find(|i| text.is_char_boundary(*i)).unwrap_or(0);
+                let hi = (a.saturating_add(80).min(text.len())..=text.len()).find(|i| text.is_char_boundary(*i)).unwrap_or(text.len());
+                text[lo..hi].to_string()
+            });
+            fail(acc, "text:parse-failed", format!("printed program does not parse back: {}; printed text there: {around:?}", e.chars().take(300).collect::<String>()));
             return;
         }
         Err((loc, msg)) => {
